@@ -287,6 +287,50 @@ Definition cls_nested_in_unit (c : chain) : bool :=
 (** the multiplied branch is not the first branch of its anchor *)
 Definition cls_sibling_before_mult (c : chain) : bool :=
   existsb (fun s => (2 <=? bm_val (snd s))%nat && negb (Nat.eqb (snd (fst s)) 0)) (sites c).
+(** a node multiplier (n >= 2) inside a multiplied unit whose incoming bond order is not 1:
+    _expand_branch joins ALL copies by the incoming order *)
+Definition out_sym (it : item) : option sym :=
+  match rev (i_branches it) with br :: _ => b_after br | [] => i_bond it end.
+Fixpoint inc_item (pend : option sym) (it : item) : list (item * option sym) :=
+  (it, pend) ::
+  match it with
+  | Item _ _ _ b brs =>
+      (fix go (brs : list branch) (p : option sym) : list (item * option sym) :=
+         match brs with
+         | [] => []
+         | Branch c _ a :: tl =>
+             (fix ch (c : list item) (p : option sym) : list (item * option sym) :=
+                match c with [] => [] | x :: r => inc_item p x ++ ch r (out_sym x) end) c p
+             ++ go tl a
+         end) brs b
+  end.
+Fixpoint inc_chain (pend : option sym) (c : chain) : list (item * option sym) :=
+  match c with [] => [] | x :: r => inc_item pend x ++ inc_chain (out_sym x) r end.
+Definition site_pending (s : item * nat * branch) : option sym :=
+  let '(it, j, _) := s in
+  match j with O => i_bond it | Datatypes.S j' => match nth_error (i_branches it) j' with Some b => b_after b | None => None end end.
+Definition cls_nodemult_order_in_unit (c : chain) : bool :=
+  existsb (fun s => (2 <=? bm_val (snd s))%nat
+                    && existsb (fun ip => (2 <=? mult_val (i_mult (fst ip)))%nat && negb (oord (snd ip) =? 1))
+                               (inc_chain (site_pending s) (b_chain (snd s)))) (sites c).
+(** a multiplied branch nested inside a top-level branch T that contains further branches which are
+    neither the multiplied branch nor its ancestors: recipes of branches already closed inside T
+    are still in the table and are expanded again (over-approximation: "further" instead of "earlier") *)
+Fixpoint stale_item (anc total : nat) (it : item) : bool :=
+  match it with
+  | Item _ _ _ _ brs =>
+      (fix go (brs : list branch) : bool :=
+         match brs with
+         | [] => false
+         | Branch c bm a :: tl =>
+             ((2 <=? bm_val (Branch c bm a))%nat && (anc + 1 <? total)%nat)
+             || (fix ch (c : list item) : bool :=
+                   match c with [] => false | x :: r => stale_item (Datatypes.S anc) total x || ch r end) c
+             || go tl
+         end) brs
+  end.
+Definition cls_stale_recipe (c : chain) : bool :=
+  existsb (fun it => existsb (fun T => existsb (stale_item O (length (sites (b_chain T)))) (b_chain T)) (i_branches it)) c.
 (** text without braces ending in a %nn marker / in ")|n" *)
 Definition last_item (c : chain) : option item := match rev c with it :: _ => Some it | [] => None end.
 Fixpoint drop_digits (s : pystr) : pystr :=
